@@ -284,12 +284,19 @@ func vfC04SwInterf(t *testing.T, plan vfC04InterfPlan, tr *vfh.Trace) (hit bool)
 			others[0].Reset()
 			endOnce("s1", "reset")
 		} else {
-			// the only other stream is inbound: reset it from the remote side's view by closing it locally
+			// the only other stream is inbound: find exactly that one among the registered streams (the
+			// released operation may have registered its own stream meanwhile; map order is random)
 			for _, s := range c.GetStreams() {
-				s.Reset()
-				break
+				ms, _ := s.(*Stream).stream.(*vfC04MS)
+				mu.Lock()
+				isS1 := byMS[ms] == "s1"
+				mu.Unlock()
+				if isS1 {
+					s.Reset()
+					endOnce("s1", "reset")
+					break
+				}
 			}
-			endOnce("s1", "reset")
 		}
 	}
 	synctest.Wait()
